@@ -520,6 +520,260 @@ def rule_g(ctx):
          '; '.join(bad) or 'recursive calls of the nested branch not found')
 
 
+def rule_h(ctx):
+  """Parsing a view does not consume it: the loaders of DNA (from_dict, from_numbers,
+  from_parameters, parse, from_json) never write to the value they are given - directly or
+  in a nested helper - unless the parameter was first re-bound to a copy.  Otherwise the
+  exported view cannot be parsed a second time ("each exported view ... reconstructs")."""
+  from sa.rules import c05 as _c05
+  idx = ctx.index
+  cls = idx.cls('pyglove.core.geno.base.DNA')
+  n = 0
+  for name in ('from_dict', 'from_numbers', 'from_parameters', 'parse', 'from_json'):
+    f = cls.methods.get(name)
+    if f is None:
+      continue
+    ps = [p for p in A.param_names(f.node)[1:2]]     # the view is the first argument after cls
+    if not ps:
+      continue
+    view = ps[0]
+    n += 1
+    # re-bound to a copy at the top level of the body, before anything else uses it?
+    copied_at = None
+    for i, st in enumerate(f.node.body):
+      if isinstance(st, ast.Assign) and len(st.targets) == 1 and isinstance(st.targets[0], ast.Name) \
+          and st.targets[0].id == view and isinstance(st.value, ast.Call) \
+          and ((A.call_name(st.value) or '') in _c05.COPIERS_L or (A.call_name(st.value) or '').endswith('.copy')):
+        copied_at = i
+        break
+    bad = []
+    for i, st in enumerate(f.node.body):
+      if copied_at is not None and i > copied_at:
+        break
+      if copied_at is not None and i == copied_at:
+        continue
+      for x in ast.walk(st):
+        if isinstance(x, ast.Call) and isinstance(x.func, ast.Attribute) and x.func.attr in _c05.CONSUMING \
+            and isinstance(x.func.value, ast.Name) and x.func.value.id == view:
+          bad.append(f'`{A.unparse(x, 60)}` (line {x.lineno})')
+        if isinstance(x, (ast.Assign, ast.AugAssign, ast.Delete)):
+          tg = x.targets if not isinstance(x, ast.AugAssign) else [x.target]
+          for t in tg:
+            if isinstance(t, ast.Subscript) and isinstance(t.value, ast.Name) and t.value.id == view:
+              bad.append(f'`{A.unparse(x, 60)}` (line {x.lineno})')
+    ctx.ob('C12.h', f'{f.qualname}#input-kept', not bad,
+           f'the loader does not modify the view `{view}` it is given (only a copy)', f.loc,
+           'the caller\'s view is consumed: ' + ', '.join(bad) + ' - parsing the same view again fails or differs')
+  if n < 2:
+    raise AnalysisError(f'C12.h: only {n} DNA loaders found')
+
+
+def _lazy_caches(cls):
+  """Attributes of the class filled on demand: `if self.X is None: ... self.X = <value>`."""
+  out = set()
+  for f in cls.methods.values():
+    for n in ast.walk(f.node):
+      if isinstance(n, ast.If) and isinstance(n.test, ast.Compare) and len(n.test.ops) == 1 \
+          and isinstance(n.test.ops[0], ast.Is) and isinstance(n.test.comparators[0], ast.Constant) \
+          and n.test.comparators[0].value is None:
+        d = A.dotted(n.test.left) or ''
+        if d.startswith('self._') and d.count('.') == 1:
+          attr = d.split('.')[1]
+          if any(isinstance(x, ast.Assign) and A.dotted(x.targets[0]) == d
+                 and not (isinstance(x.value, ast.Constant) and x.value.value is None)
+                 for b in n.body for x in ast.walk(b)):
+            out.add(attr)
+  return out
+
+
+def rule_i(ctx):
+  """Lookups return the decision actually made: the lookup tables of a DNA
+  (by id, by name) are filled lazily and depend on its spec and its children.
+  (1) Every method that stores a new `_spec` also drops every lazily filled
+  table of the class; (2) the library's search operators change the children of
+  a DNA with notification on - `_on_bound` is what drops the tables of the
+  ancestors, so no rebind of DNA nodes with skip_notification=True (nor under
+  notify_on_change(False)) in geno/ and ext/evolution/."""
+  idx = ctx.index
+  cls = idx.cls('pyglove.core.geno.base.DNA')
+  caches = _lazy_caches(cls)
+  if len(caches) < 2:
+    raise AnalysisError(f'DNA: lazily filled lookup tables not found ({sorted(caches)})')
+  n = 0
+  for name, f in sorted(cls.methods.items()):
+    writes = [x for x in ast.walk(f.node) if isinstance(x, ast.Assign) and any(A.dotted(t) == 'self._spec' for t in x.targets)
+              and not (isinstance(x.value, ast.Constant) and x.value.value is None)]
+    if not writes:
+      continue
+    n += 1
+    reset = {A.dotted(t).split('.')[1] for x in ast.walk(f.node) if isinstance(x, ast.Assign)
+             and isinstance(x.value, ast.Constant) and x.value.value is None
+             for t in x.targets if (A.dotted(t) or '').startswith('self._')}
+    missing = sorted(caches - reset)
+    ctx.ob('C12.i', f'DNA.{name}#tables-follow-spec', not missing,
+           'a method that binds the DNA to a spec drops the lookup tables derived from the previous one', f.loc,
+           f'{missing} survive the new spec: d.use_spec(A); d[\'a\']; d.use_spec(B); d[\'b\'] raises KeyError and '
+           f'd.get(\'a\') still answers')
+  if n < 1:
+    raise AnalysisError('DNA: no method stores _spec')
+  bad = []
+  m = 0
+  for f in idx.all_funcs():
+    if not (f.module.name.startswith('pyglove.core.geno.') or f.module.name.startswith('pyglove.ext.evolution.')) \
+        or f.module.relpath.endswith('_test.py'):
+      continue
+    for c in A.calls_in(f.node):
+      d = (A.call_name(c) or '').split('.')[-1]
+      if d in ('rebind', 'sym_rebind'):
+        # only rebinds that change the decisions: the `children` member of a node (metadata
+        # and the bookkeeping of specs - literal_values, index - derive no lookup table)
+        recv = (A.call_name(c) or '').rsplit('.', 1)[0]
+        on_children = recv.endswith('children') or any(kw.arg in ('children', 'value') for kw in c.keywords)
+        if not on_children:
+          continue
+        m += 1
+        for kw in c.keywords:
+          if kw.arg == 'skip_notification' and A.unparse(kw.value) != 'False':
+            bad.append(f'{f.module.relpath}:{c.lineno} `{A.unparse(c, 70)}`')
+  ctx.ob('C12.i', 'geno+evolution#rebinds-notify', not bad,
+         f'DNA nodes are changed with notification on ({m} rebinds examined): the ancestors drop their lookup tables',
+         'pyglove/ext/evolution/mutators.py:1',
+         '; '.join(bad) + ' - a lookup cached before the change (e.g. by a `where` function) answers with the old decision')
+
+
+def rule_j(ctx):
+  """None is a stored value, not "absent": the lookup tables of a DNA are built with
+  include_inactive_decisions=True, so an inactive decision is stored as None ("None if the
+  decision point exists but it's inactive").  A table that can hold None is probed with `in`;
+  `v = table.get(k, None)` followed by `if v is None:` takes an inactive decision for a
+  missing one - the lookup raises KeyError, or an accumulator forgets the inactive copy."""
+  idx = ctx.index
+  cls = idx.cls('pyglove.core.geno.base.DNA')
+  # tables: attributes/properties/locals filled from a to_dict(..., include_inactive_decisions=True)
+  tables = set()
+  for name, f in cls.methods.items():
+    for c in A.calls_in(f.node):
+      if (A.call_name(c) or '').endswith('to_dict') and any(
+          kw.arg == 'include_inactive_decisions' and A.unparse(kw.value) == 'True' for kw in c.keywords):
+        tables.add(name)                         # the property itself: self.<name>
+        tables.add(name.lstrip('_'))
+        for x in ast.walk(f.node):               # locals accumulated in it and returned / stored
+          if isinstance(x, ast.Assign) and isinstance(x.value, ast.Dict) and not x.value.keys:
+            tables.update(A.assigned_names(x.targets[0]))
+  if len(tables) < 2:
+    raise AnalysisError(f'DNA: tables that store inactive decisions not found ({sorted(tables)})')
+  n = 0
+  for name, f in sorted(cls.methods.items()):
+    for st in ast.walk(f.node):
+      if not (isinstance(st, ast.Assign) and isinstance(st.value, ast.Call) and isinstance(st.value.func, ast.Attribute)
+              and st.value.func.attr == 'get'):
+        continue
+      recv = A.dotted(st.value.func.value) or ''
+      if recv.split('.')[-1] not in tables:
+        continue
+      dflt = st.value.args[1] if len(st.value.args) > 1 else None
+      if dflt is not None and not (isinstance(dflt, ast.Constant) and dflt.value is None):
+        continue
+      var = A.assigned_names(st.targets[0])
+      tested = [t for t in ast.walk(f.node) if isinstance(t, ast.Compare) and len(t.ops) == 1
+                and isinstance(t.ops[0], (ast.Is, ast.IsNot)) and isinstance(t.left, ast.Name) and t.left.id in var
+                and isinstance(t.comparators[0], ast.Constant) and t.comparators[0].value is None]
+      n += 1
+      ctx.ob('C12.j', f'DNA.{name}#absent-vs-none', not tested,
+             f'`{recv}` stores None for an inactive decision; presence of a key is tested with `in`', f'{f.module.relpath}:{st.lineno}',
+             f'`{A.unparse(st, 70)}` then `{A.unparse(tested[0]) if tested else ""}`: an inactive decision is taken for a missing key')
+  ctx.ob('C12.j', 'DNA#tables', True, f'{len(tables)} None-storing tables, {n} probes with .get(k, None)', cls.methods['__getitem__'].loc)
+
+
+SPEC_PARAMS = ('spec', 'dna_spec')
+
+
+def _local_returns(fn_node):
+  return [r for r in A.walk_local(fn_node) if isinstance(r, ast.Return) and r.value is not None]
+
+
+def _branch_of(fn_node, node):
+  """Statements of the outermost if/elif/else branch of the function that contains `node`
+  (the whole body when it is not inside an if)."""
+  stmts = fn_node.body
+  for st in stmts:
+    if isinstance(st, ast.If) and any(x is node for x in ast.walk(st)):
+      cur = st
+      while True:
+        if any(x is node for b in cur.body for x in ast.walk(b)):
+          return cur.body
+        if len(cur.orelse) == 1 and isinstance(cur.orelse[0], ast.If):
+          cur = cur.orelse[0]
+          continue
+        return cur.orelse
+  return stmts
+
+
+def _bound_expr(e, fn_node, factory_names, specs, depth=0):
+  """Is the value of `e` a DNA that was bound to (one of) `specs`?"""
+  if depth > 3:
+    return False
+  if isinstance(e, ast.Call):
+    d = A.call_name(e) or ''
+    last = d.split('.')[-1]
+    if last == 'use_spec' and e.args:
+      return True
+    if last in ('DNA', 'cls') or d == 'cls':
+      return any(kw.arg == 'spec' for kw in e.keywords)
+    if last in factory_names and d.split('.')[0] in ('cls', 'DNA'):
+      return True                                     # another factory (decided on its own)
+    # a nested helper of this function: all its returns are bound
+    for n in ast.walk(fn_node):
+      if isinstance(n, ast.FunctionDef) and n is not fn_node and n.name == d:
+        hs = {a.arg for a in n.args.args} & set(SPEC_PARAMS) | set(specs)
+        rs = _local_returns(n)
+        return bool(rs) and all(_bound_expr(r.value, n, factory_names, hs or specs, depth + 1) for r in rs)
+    return False
+  if isinstance(e, ast.Name):
+    defs = [v for _, v in D.defs_of(fn_node, e.id) if v is not None]
+    if not defs:
+      return False
+    return all(_bound_expr(v, fn_node, factory_names, specs, depth + 1) for v in defs)
+  if isinstance(e, ast.Subscript) and isinstance(e.value, ast.Name):
+    # an element of a list that only collects bound DNAs (appended results of factories);
+    # the list is looked at within the if-branch that holds the expression (the same local
+    # name may collect something else in a sibling branch)
+    lst = e.value.id
+    scope = _branch_of(fn_node, e)
+    apps = [c for st in scope for c in A.calls_in(st) if A.call_name(c) == f'{lst}.append' and c.args]
+    comps = [x.value.elt for st in scope for x in ast.walk(st) if isinstance(x, ast.Assign)
+             and lst in A.assigned_names(x.targets[0]) and isinstance(x.value, ast.ListComp)]
+    elems = [c.args[0] for c in apps] + comps
+    return bool(elems) and all(_bound_expr(x, fn_node, factory_names, specs, depth + 1) for x in elems)
+  return False
+
+
+def rule_k(ctx):
+  """Every DNA handed out by a factory that is given the spec is bound to it: each
+  return of a DNA classmethod with a spec parameter is a DNA constructed with
+  `spec=`, the result of `use_spec(...)`, the result of another such factory, or a
+  nested helper / collected element of which that holds.  (`from_fn` validated the
+  DNA against the spec and returned it unbound.)"""
+  idx = ctx.index
+  cls = idx.cls('pyglove.core.geno.base.DNA')
+  facts = {}
+  for name, f in cls.methods.items():
+    if 'classmethod' in [d.split('.')[-1] for d in A.decorator_names(f.node)]:
+      sp = [p for p in A.param_names(f.node) if p in SPEC_PARAMS]
+      if sp:
+        facts[name] = (f, sp)
+  if len(facts) < 4:
+    raise AnalysisError(f'DNA: only {len(facts)} factories with a spec parameter found')
+  for name, (f, sp) in sorted(facts.items()):
+    rets = _local_returns(f.node)
+    bad = [r for r in rets if not _bound_expr(r.value, f.node, set(facts), sp)]
+    optional = A.params_with_defaults(f.node).get(sp[0]) is not None
+    ctx.ob('C12.k', f'DNA.{name}#returns-bound', not bad,
+           'the factory returns a DNA bound to the spec it was given' + (' (when one is given)' if optional else ''), f.loc,
+           'unbound return: ' + ', '.join(f'`{A.unparse(r.value, 50)}` (line {r.lineno})' for r in bad) +
+           ' - .spec is None, so to_dict / lookups raise although the factory was handed the spec')
+
+
 def run(ctx):
   ctx.consult(*FILES)
   rule_a(ctx)
@@ -529,4 +783,8 @@ def run(ctx):
   rule_e(ctx)
   rule_f(ctx)
   rule_g(ctx)
+  rule_h(ctx)
+  rule_i(ctx)
+  rule_j(ctx)
+  rule_k(ctx)
   ctx.assume('losslessness of each view over all specs/DNAs is not decided')
